@@ -5,13 +5,13 @@
  "enforce": ["aws_sign_s3_headers"],
  "replace": [],
  "annotate": ["aws/aws_sign.c"],
- "defines": ["VERIF_HALLOC", "C19_SMAX=8", "C19_BMAX=8", "VERIF_STRMAX=40", "AWS_MMAX=32", "AWS_KMAX=32", "AWS_FMTMAX=336"],
- "thorough_defines": ["C19_SMAX=24", "C19_CREQMAX=24", "C19_BMAX=32"],
+ "defines": ["VERIF_HALLOC", "C19_SMAX=16", "C19_BMAX=16", "VERIF_STRMAX=40", "AWS_MMAX=32", "AWS_KMAX=32", "AWS_FMTMAX=336"],
+ "thorough_defines": ["C19_SMAX=200", "C19_CREQMAX=200", "C19_BMAX=256", "VERIF_STRMAX=208", "AWS_MMAX=256"],
  "models": ["models/libc_string.c", "models/aws_hash.c", "models/aws_fmt.c", "models/aws_time.c"],
  "instrument_flags": ["--nondet-static-exclude", "hexchars"],
  "loop_contracts": false,
  "bounded": true,
- "bound": "every string argument: all strings of <= 8 characters (thorough: 24); body absent, empty or <= 8 bytes (thorough: 32), bodylen arbitrary when the body is absent; formatted strings compared in normal form (models/aws_stream.h), not as rendered bytes; every loop has a compile-time-constant bound and is fully unwound (unwinding assertions on)",
+ "bound": "every string argument: all strings of <= 16 characters (thorough: 200); body absent, empty or <= 16 bytes (thorough: 256), bodylen arbitrary when the body is absent; formatted strings are compared in normal form (literal text at constant positions, input strings by reference: models/aws_stream.h) and are themselves represented by abstract stand-ins of <= 24 bytes, never rendered; every loop has a compile-time-constant bound and is fully unwound (unwinding assertions on)",
  "timeout": 900,
  "assumptions": ["SHA256_Buf/HMAC_SHA256_Buf are abstract logging leaves (models/aws_hash.c, G2): their conformance is C01's",
                  "asprintf is modelled (models/aws_fmt.c): records what is to be printed for %s %d %% in normal form, result bytes abstract; util/asprintf.c itself is not part of the proof (DFCC cannot instrument variadic functions); util/hexify.c is the real code",
